@@ -60,6 +60,8 @@ def check_roundtrip(drv, rng, obj, X, stats, tag=""):
     st1 = fitgen.state_wire(obj)
     r = drv.call({"op": "disc.reload", "state": {k: v for k, v in st1.items() if k != "lpv"}, "keystr": keystr_table(obj)})
     st2 = fitgen.state_wire(obj2)
+    # hypothesis of the theorem `C06.reload_behaviour` (every order is `Dumpable`), evaluated by the model on this state
+    stats["dumpable" if r.get("dumpable") else "not_dumpable"] += 1
     if "ok" not in r:
         fail("model predicts that the reload fails", kind="correspondence", model=r)
     else:
@@ -108,7 +110,7 @@ def worker(args):
     rng = random.Random(seed)
     drv = core.Driver()
     fails, sample, sigs = [], None, set()
-    stats = {"cases": 0, "skipped_fit_error": 0, "na": 0, "classes": {}, "reloaded": 0, "frames": 0, "summary_error": 0}
+    stats = {"cases": 0, "skipped_fit_error": 0, "na": 0, "classes": {}, "reloaded": 0, "frames": 0, "summary_error": 0, "dumpable": 0, "not_dumpable": 0}
     try:
         for _ in range(n):
             r = c04.gen_case(rng)
